@@ -144,6 +144,13 @@ def make_scratch(mounts, atomics_files=(), extra_subs=(), tmp_root=None):
         _sub(os.path.join(src, "coroutine/mod.rs"), "    fn setup_sigvtalrm_handler() {",
              "    fn setup_sigvtalrm_handler() {\n        #[cfg(kani)]\n        return;", expect=1)
         applied.append("E8 skip setup_trap_handler / setup_sigvtalrm_handler (signal handler installation)")
+        # E11 zero-initialised function-local atomics (constant/static aliasing in Kani 0.68, see verif_env.rs)
+        for rel, cnt in (("common/mod.rs", 2), ("common/beans.rs", 1)):
+            if rel in atomics_files:
+                continue  # E5 replaces the type there (tagged Cell-backed model)
+            n = _sub(os.path.join(src, rel), ": AtomicUsize = AtomicUsize::new(0);",
+                     ": crate::verif_env::TaggedAtomicUsize = crate::verif_env::TaggedAtomicUsize::new(0);", expect=cnt)
+            applied.append(f"E11 {rel} x{n}")
         # E5 atomics (only for the concurrency harnesses)
         for rel in atomics_files:
             p = os.path.join(src, rel)
